@@ -45,7 +45,19 @@ func OracleC27(r *Result) []Viol {
 		case "pool.create":
 			running++
 			if max >= 1 && running > max {
-				add("limit-exceeded:running", "event %d: %d connections running, max=%d", i, running, max)
+				// known cause: a connection reported the retryable dead error while its Run was still alive, the
+				// holder recorded its death and a replacement is created before the old Run has returned
+				sig := "limit-exceeded:running"
+				exited := map[int64]bool{}
+				for _, f := range r.Log[:i] {
+					if f.Point == "h.runexit" {
+						exited[f.Key] = true
+					}
+					if f.Point == "pool.invoke.markdead" && !exited[f.Key] {
+						sig = "running-exceeds-max:dead-reported-before-run-exit"
+					}
+				}
+				add(sig, "event %d: %d connections have a running Run, max=%d (counter %d)", i, running, max, live)
 			}
 			if h, ok := held(e.Key); ok {
 				add("conn-shared", "event %d: connection %d created while held by %d", i, e.Key, h)
